@@ -1,4 +1,5 @@
 import BevySyncModel.Proofs.Snap
+import BevySyncModel.Proofs.SnapLive
 import BevySyncModel.Proofs.Asset
 import BevySyncModel.Generated.Snap
 import BevySyncModel.Generated.Sync
@@ -45,6 +46,22 @@ theorem C03_joiner_converges (mode : Bool) (s : State V) (as : List (Act V)) (hi
     ((run s as).host.present = false → (run s as).j.present = false ∧ (run s as).j.count = 0) ∧
     (∀ v, (run s as).host.p.val = some v → (run s as).j.p.val = some v) ∧ (run s as).j.up = [] :=
   inv_quiescent mode _ (inv_run mode s as hi ha) hq
+
+/-- **C03 without the hypothesis that the joiner gets through**: from any state of the slice one fair round of the
+machinery (transport accepts, snapshot built, host detects / reacts, joiner polls everything, runs every closure, detects,
+reacts) ends with the joiner through; so after any interleaving of an epoch there is such a continuation — allowed in
+both kinds of epoch — after which the joiner holds what the host holds -/
+theorem C03_join_completes (s : State V) : Quiescent (roundS s) :=
+  one_round_quiescent s
+
+theorem C03_joiner_converges_total (mode : Bool) (s : State V) (as : List (Act V)) (hi : Inv mode s)
+    (ha : ∀ a ∈ as, Allowed mode a) :
+    ∃ more : List (Act V), (∀ a ∈ more, Allowed mode a) ∧
+      let t := run (run s as) more
+      (t.host.present = true → t.j.present = true ∧ t.j.count = 1) ∧
+      (t.host.present = false → t.j.present = false ∧ t.j.count = 0) ∧
+      (∀ v, t.host.p.val = some v → t.j.p.val = some v) ∧ t.j.up = [] :=
+  joiner_converges_total mode s as hi ha
 
 /-- the hypotheses are met by a newcomer … -/
 theorem C03_newcomer_start (mode : Bool) (h : Host V) (hh : HostSide mode h) (hp : h.present = false → h.p = {}) :
